@@ -60,6 +60,26 @@ def zone_programs(n):
                         SECOND[mode], ('act', 'set', (('zone', S('s'), za, zb), ('light', S('a')))))
 
 
+def mixed_mode_programs(h, w):
+    """Two matrix commands in one run, in different unit modes, whose registers hold the same numbers:
+    each cell is converted by the mode in force when it is sent."""
+    quads = [(0, 0, 100), (120, 100, 100), (50, 50, 50), (100, 0, 0)]
+    def regs(mode, q):
+        names = ('red', 'green', 'blue') if mode == 'rgb' else ('hue', 'saturation', 'brightness')
+        return tuple(('setreg', n, N(v)) for n, v in zip(names, q)) + (('setreg', 'kelvin', N(2700)),)
+    for m1, m2 in (('logical', 'rgb'), ('rgb', 'logical'), ('logical', 'raw'), ('raw', 'rgb'), ('rgb', 'raw'), ('raw', 'logical')):
+        for q in quads:
+            for form in ('inline', 'block', 'default'):
+                def cmd(mode):
+                    if form == 'inline':
+                        return (('act', 'set', (('matrix', S('m'), (N(0), None), None),)),)
+                    if form == 'block':
+                        return (('act', 'set', (('block', S('m'), (('stage', None, (N(w - 1), None)),)),)),)
+                    return (('setdefault',), ('act', 'set', (('matrix', S('m'), (N(h - 1), None), (N(0), None)),)))
+                yield (('units', m1),) + regs(m1, q) + cmd(m1) + (('units', m2),) + regs(m2, q) + cmd(m2) + \
+                    (('act', 'set', (('light', S('a')),)),)
+
+
 def matrix_programs(h, w, max_stages, reduced):
     all_rects = rects(h, w)
     if reduced:
@@ -68,6 +88,8 @@ def matrix_programs(h, w, max_stages, reduced):
         pair_rects = [(r, c) for r, c in all_rects if r in keep and c in keepc]
     else:
         pair_rects = all_rects
+    for p in mixed_mode_programs(h, w):
+        yield p
     for mode in ('logical', 'raw', 'rgb'):
         for with_default in (False, True):
             head = COLORS[mode] + (DEFAULT[mode] + COLORS[mode][1 if mode != 'logical' else 0:] if with_default else ())
